@@ -58,11 +58,10 @@ ReplAll(s, pat, rep) == IF Len(s) < Len(pat) THEN s
                         ELSE <<s[1]>> \o ReplAll(Tail(s), pat, rep)
 
 \* lines of a source text: maximal runs up to and including a LF; a last line may lack it
-RECURSIVE SplitLinesAt(_, _, _)
-SplitLinesAt(s, k, cur) == IF k > Len(s) THEN (IF cur = <<>> THEN <<>> ELSE <<cur>>)
-                           ELSE IF s[k] = LF THEN <<Append(cur, LF)>> \o SplitLinesAt(s, k + 1, <<>>)
-                           ELSE SplitLinesAt(s, k + 1, Append(cur, s[k]))
-SplitLines(s) == SplitLinesAt(s, 1, <<>>)
+LfPositions(s) == SelectSeq([j \in 1..Len(s) |-> j], LAMBDA j : s[j] = LF)
+SplitLines(s) == LET ps == LfPositions(s)  n == Len(ps)  last == IF n = 0 THEN 0 ELSE ps[n] IN
+                 [k \in 1..n |-> SubSeq(s, IF k = 1 THEN 1 ELSE ps[k - 1] + 1, ps[k])]
+                 \o (IF last < Len(s) THEN <<SubSeq(s, last + 1, Len(s))>> ELSE <<>>)
 
 RECURSIVE DedupSeq(_)
 DedupSeq(s) == IF s = <<>> THEN <<>> ELSE <<Head(s)>> \o DedupSeq(SelectSeq(Tail(s), LAMBDA x : x # Head(s)))
